@@ -240,6 +240,26 @@ func (c *FnCtx) onRelease(st *State, mu string, pos token.Pos) {
 			o := c.obligation(st, "lockinv", fmt.Sprintf("%s.%s.%d", t.Name, m[2], k), c.evalBool(env, inv.E), pos)
 			o.Desc = "lock invariant re-established at release: " + inv.Text
 		}
+		// a channel held in a guarded field is protected by the lock too: once this goroutine lets go of the lock
+		// completely, another goroutine may close it (a value copied out of the field earlier is no longer safe to send on)
+		if ot == nil {
+			continue
+		}
+		for _, f := range t.Guarded[m[2]] {
+			fi := fieldIndex(ot, f)
+			if fi < 0 {
+				continue
+			}
+			ft := ot.Underlying().(*types.Struct).Field(fi).Type()
+			if _, isChan := ft.Underlying().(*types.Chan); !isChan {
+				continue
+			}
+			ch := "(select " + c.heapGet(st, c.fieldHeap(ot, fi)) + " " + m[3] + ")"
+			C := c.heapGet(st, c.chClosed())
+			mayClose := c.sc.Fresh("interf$closed", sBool)
+			c.heapSet(st, c.chClosed(), "(store "+C+" "+ch+" (or (select "+C+" "+ch+") "+mayClose+"))")
+			c.assumed["interference: a channel stored in a lock-guarded field may be closed by others once the lock is released"] = true
+		}
 	}
 }
 
